@@ -47,6 +47,17 @@ class C21(Monitor):
                           None, endpoint=ep, **{k: v for k, v in d.items() if k != 'what'})
                 return
             self.probe('limit_change_then_large_frame', self._limit_probe(e))
+            # lazy-read twin: output taken in arbitrary partial reads *between* calls and received chunks
+            # (a received GOAWAY discards what was not taken yet, so only logs without one are compared)
+            if not any(f.type == C.GOAWAY for s in e.log if s.kind == 'recv' for f in s.in_frames) and not any(s.kind == 'call' and s.op == 'clear_outbound_data_buffer' for s in e.log):
+                lazy, bad = twins.run_lazy(w, ep, twins.twin_rng(w, ep, 'lazy'))
+                whole = b''.join(s.out for s in e.log)
+                self.probe('lazy_read_twin')
+                if bad or lazy != whole:
+                    self.fail('read-amount-dependence', 'partial data_to_send(amount) reads interleaved with calls changed the byte stream', None,
+                              endpoint=ep, same_length=len(lazy) == len(whole),
+                              first_difference=next((i for i, (x, y) in enumerate(zip(lazy, whole)) if x != y), min(len(lazy), len(whole))))
+                    return
 
     @staticmethod
     def _limit_probe(e):
